@@ -197,6 +197,21 @@ func (p *BaseChannelProposal) Valid() error {
 	} else if len(p.InitBals.Locked) != 0 {
 		return errors.New("initial allocation cannot have locked funds")
 	}
+	// The funding agreement distributes the funds of the initial balances among
+	// the participants: same dimensions, same sum per asset.
+	if len(p.FundingAgreement) != len(p.InitBals.Balances) {
+		return errors.New("funding agreement: dimension mismatch")
+	}
+	for i := range p.FundingAgreement {
+		if len(p.FundingAgreement[i]) != len(p.InitBals.Balances[i]) {
+			return errors.New("funding agreement: dimension mismatch")
+		}
+	}
+	if equal, err := perunbig.EqualSum(p.InitBals.Balances, p.FundingAgreement); err != nil {
+		return errors.WithMessage(err, "comparing funding agreement and initial balances sum")
+	} else if !equal {
+		return errors.New("funding agreement and initial balances differ")
+	}
 	return nil
 }
 
